@@ -745,6 +745,53 @@ def reused_assign_object(col, rng):
                               'glom(targets, [Assign(%r, T[v]%s)]) -> %s' % (path, ', missing=dict' if missing else '', short(targets if got.ok else got, 400)), None)
 
 
+class _Vault:
+    """children reachable only through the get handler a Glommer registers for it (no attributes, no __getitem__)"""
+    __slots__ = ('_cells',)
+
+    def __init__(self, **cells):
+        self._cells = cells
+
+
+def _vault_get(v, k):
+    return v._cells[k]
+
+
+def assign_runs_in_the_context_of_the_call(col):
+    """the parent of the addressed element is reached with everything the running call has: the registry of the Glommer the call
+    goes through (a type whose children only its registered get handler reaches) and the scope (a segment taken from S)"""
+    from glom import Glommer, S
+    g = Glommer()
+    g.register(_Vault, get=_vault_get)
+    mk = lambda: {'v': _Vault(inner={'x': 1, 'y': 2}, lst=[10, 20, 30]), 'a': {'x': 1, 'y': 2}, 'b': {'x': 3}}
+    cases = [
+        # (description, runner, spec, plain Python on a twin, expected error class when plain Python fails)
+        ('Glommer, registered type on the parent path (string)', lambda t, sp: g.glom(t, sp), lambda: Assign('v.inner.x', 'NEW'), lambda t: t['v']._cells['inner'].__setitem__('x', 'NEW')),
+        ('Glommer, registered type on the parent path (Path)', lambda t, sp: g.glom(t, sp), lambda: Assign(Path('v', 'lst', 1), 'NEW'), lambda t: t['v']._cells['lst'].__setitem__(1, 'NEW')),
+        ('Glommer, registered type behind a star', lambda t, sp: g.glom(t, sp), lambda: Assign(Path(T.__star__(), 'inner', 'y'), 'NEW'), lambda t: t['v']._cells['inner'].__setitem__('y', 'NEW')),
+        ('segment taken from the scope (S step before)', G, lambda: (S(which='a'), Assign(T[S['which']]['x'], 'NEW')), lambda t: t['a'].__setitem__('x', 'NEW')),
+        ('segment taken from the caller scope', lambda t, sp: G(t, sp, scope={'which': 'b'}), lambda: Assign(T[S['which']]['x'], 'NEW'), lambda t: t['b'].__setitem__('x', 'NEW')),
+        ('segment taken from the scope, inside a list spec', G, lambda: ('rows', [(S(k=T['k']), Assign(T['d'][S['k']]['x'], 'NEW'))]), None),
+    ]
+    for desc, runner, mk_spec, py in cases:
+        if py is None:
+            t = {'rows': [{'k': 'p', 'd': {'p': {'x': 1, 'z': 0}, 'q': {'x': 2}}}, {'k': 'q', 'd': {'p': {'x': 3}, 'q': {'x': 4, 'z': 0}}}]}
+            w = {'rows': [{'k': 'p', 'd': {'p': {'x': 1, 'z': 0}, 'q': {'x': 2}}}, {'k': 'q', 'd': {'p': {'x': 3}, 'q': {'x': 4, 'z': 0}}}]}
+            w['rows'][0]['d']['p']['x'] = w['rows'][1]['d']['q']['x'] = 'NEW'
+            read = lambda t: t
+        else:
+            t, w = mk(), mk()
+            py(w)
+            read = lambda t: {'v': t['v']._cells, 'a': t['a'], 'b': t['b']}
+        got = call(runner, t, mk_spec())
+        col.case(('context-of-the-call', desc), True)
+        col.count('assignments_attempted')
+        if not got.ok:
+            col.violation('C11/assign-leaves-the-context-of-the-call:raises', '%s: %r (plain Python can do it)' % (desc, got.exc), None)
+        elif read(t) != read(w):
+            col.violation('C11/assign-leaves-the-context-of-the-call:effect-differs', '%s: target now %r, plain Python gives %r' % (desc, read(t), read(w)), None)
+
+
 def run(ctx):
     col, rng = ctx.col, ctx.rng
     col.require('successful_edits', 300)
@@ -758,6 +805,7 @@ def run(ctx):
         reused_assign_object(col, rng)
         missing_before_wildcard(col)
         wildcard_value_is_evaluated_once(col)
+        assign_runs_in_the_context_of_the_call(col)
         attribute_vs_item_on_container_subclasses(col)
         attribute_vs_item_in_fresh_processes(col, 24 if not ctx.thorough else 64)
         wildcard_over_mixed_kinds_and_equal_holders(col)
